@@ -140,7 +140,7 @@ SOf(e)      == SeqToSet(e.S)
 
 TBegin  == /\ IsEvent("begin")
            /\ LET S == SOf(Ev)  F == NeededSet(d, S, PKeys(inp)) IN
-              /\ (Ev.F = <<"*">> \/ FSet(Ev.F) = F)                     \* the exported needed set is the spec's
+              /\ (IF Ev.F = <<"*">> THEN TRUE ELSE FSet(Ev.F) = F)      \* the exported needed set is the spec's
               /\ SubBegin([F |-> F, cleanup |-> Ev.cleanup, fixed |-> Ev.fixed], S)
 TCall   == IsEvent("call") /\ (LET i == FByName(Ev.f) IN \E t \in CallPositions(i) : Call(i, t, Ev.kwargs))
 TRet    == IsEvent("ret")  /\ (LET i == FByName(Ev.f) IN
